@@ -14,6 +14,11 @@ the model runner prints `<compared>` only):
   SV m=.. kh= kq= kc= cx= ca= cq= cc= sq= mh= url=<template>  download -> SV <status> none|served:<k>
   INFLIGHT <fid> <kind> <n>     the fs handler's Upload (os.Create + StartUpload + copy) WITHOUT FinishUpload:
                                 an upload that is running / was abandoned          -> INFLIGHT ok
+  SYSLOAD / MEMBER <t> <owner> <u> <want> <given|-> / PUBX <sess> <as> <t|sys> <k|-> <tpls> / AGE <hours>
+                                publishes with attachment lists by senders of every mode shape (write-only by want or
+                                by given, reader+writer, reader only, owner, root on behalf of another user, posts to
+                                'sys' without a subscription), the k-th adapter call of the request failing, ageing;
+                                answer PUBX saved= res= marked= calls=<the adapter calls messagesMapper.Save made>
   USER/NEWACC/TOPIC/PUB/TAV/UAV/DELMSG/DELTOPIC/DELUSER/GC/DUMP      history of the link / GC part
      (NEWACC = {acc user="new"} with attachments from a session that is not logged in; TOPIC = {sub topic="new"};
       TAV / UAV = {set desc} on a group topic / on "me"; DELUSER of an owner removes its topics and their messages)
@@ -43,6 +48,7 @@ LAWS = {
     "linked-while-referenced": "a file listed with an accepted publish / avatar update stays linked and stored while the message / topic / user exists",
     "c16-attachment-link-all-or-nothing": "a stored message is left without links to its existing attachments because another listed attachment does not exist",
     "nothing-else-removed": "upload records and bytes disappear only through GC runs or failed uploads",
+    "linked-never-removed": "an attachment listed with an accepted message - whoever sent it: write-only subscriber, owner, root on behalf of a user, a post to 'sys' - is not garbage-collected (record and bytes) after the grace period while the message exists",
     "url-names-upload": "a URL yields an id only if its cleaned path is [serve prefix or nothing] + an 11-character name from [-_A-Za-z0-9] followed by nothing or a character outside that class",
     "no-panic": "the code under test panicked",
 }
@@ -502,6 +508,102 @@ def history_cases(g, count, length):
         g.add("DUMP")
 
 
+# ---------------------------------------------------------------- senders of every mode shape (messagesMapper.Save)
+# (want, given set by the owner or "-" = the topic's default JRWPS)
+MODES_C16B = {
+    "wonly": [("JWP", "-"), ("JW", "-"), ("JWPS", "-"), ("JRWPS", "JWP"), ("JRWP", "JW"), ("JWP", "JWPS")],
+    "rw": [("JRWPS", "-"), ("JRWP", "JRWPS"), ("JRW", "-")],
+    "ronly": [("JRP", "-"), ("JRWPS", "JRP")],
+}
+
+
+def sender_mode_cases_c16b(g, count, length):
+    """histories in which the message with the attachment list comes from every kind of sender; every publish is
+    followed by a dump, and the grace period + the garbage collector's own call come back regularly"""
+    rng = g.rng
+    g.add("SYSLOAD")
+    npub = sum(1 for l in g.lines if l.startswith("PUB"))
+    for h in range(count):
+        base = g.nuser = max(g.nuser, 2) + 1
+        a, b, c, o = base, base + 1, base + 2, base + 3
+        g.nuser = base + 3
+        for u in (a, b, c, o):
+            g.add("USER %d" % u)
+        files = [g.good_up(body="form:%d:1:1" % rng.choice([1300, 1800])) for _ in range(3)]
+        g.ntopic += 1
+        t = g.ntopic
+        owner = rng.choice([1, a])
+        g.add("TOPIC %d %d %s" % (t, owner, g.tpl(rng.choice(files)) if rng.random() < 0.3 else "-"))
+        members = [u for u in (1, a, b, c) if u != owner]      # maxSubscriberCount = 4
+        shape = {owner: "owner"}
+        for u in members:
+            kind = "rw" if u == 1 else rng.choice(["wonly", "wonly", "wonly", "rw", "ronly"])
+            want, given = rng.choice(MODES_C16B[kind])
+            shape[u] = kind
+            g.add("MEMBER %d %d %d %s %s" % (t, owner, u, want, given))
+        g.add("DUMP")
+
+        likely = []          # uploads listed with a publish that is probably accepted: they stay when the GC has run
+
+        def attachments(accepted):
+            r = rng.random()
+            if r < 0.08:
+                return "-"
+            ks = [rng.choice(files) for _ in range(rng.choice([1, 1, 1, 2]))]
+            if accepted:
+                likely.extend(ks)
+            tp = [g.tpl(k) for k in ks]
+            if rng.random() < 0.15:
+                tp.insert(rng.randrange(len(tp) + 1), g.bad_tpl())      # names nothing: skipped by Save
+            return ",".join(tp)
+
+        def fault():
+            return str(rng.choice([1, 2, 3, 3, 4, 4])) if rng.random() < 0.12 else "-"
+
+        # every shape at least once, then a random tail
+        script = [("self", u) for u in [owner] + members] + [("obo", rng.choice([a, b, c])), ("sys", rng.choice([a, b, c, o])),
+                                                              ("sysobo", rng.choice([a, b, c, o])), ("gc", 0)]
+        rng.shuffle(script)
+        for step in range(length):
+            if step < len(script):
+                what, u = script[step]
+            else:
+                r = rng.random()
+                what, u = (("self", rng.choice([owner] + members)) if r < 0.40 else
+                           ("obo", rng.choice([a, b, c, o])) if r < 0.52 else
+                           ("sys", rng.choice([a, b, c, o, 1])) if r < 0.66 else
+                           ("sysobo", rng.choice([a, b, c, o])) if r < 0.72 else
+                           ("up", 0) if r < 0.80 else ("delmsg", 0) if r < 0.86 else ("gc", 0))
+            if what in ("self", "obo", "sys", "sysobo"):
+                f = fault()
+                on_sys = what in ("sys", "sysobo")
+                ok = f == "-" and (on_sys or shape.get(u, "none") in ("owner", "wonly", "rw"))
+                g.add("PUBX %d %d %s %s %s" % (u if what in ("self", "sys") else 1, u, "sys" if on_sys else str(t), f, attachments(ok)))
+                npub += 1
+            elif what == "up":
+                files.append(g.inflight() if rng.random() < 0.15 else g.good_up(body="form:%d:1:1" % rng.choice([1300, 1800])))
+            elif what == "delmsg":
+                ks = sorted({rng.randrange(max(1, npub - 10), npub + 1) for _ in range(2)})
+                g.add("DELMSG %d %d %s" % (owner, t, ",".join(map(str, ks))))
+            else:
+                # the grace period passes; then exactly what largeFileRunGarbageCollection calls
+                g.add("AGE %d" % rng.choice([2, 2, 3, 24]))
+                g.add("GC past %d" % rng.choice([100, 100, 0, 1]))
+                g.add("DUMP")
+                # what was not linked is gone now: go on with the uploads that were listed, and two new ones
+                files = sorted(set(likely)) + [g.good_up(body="form:%d:1:1" % rng.choice([1300, 1800])) for _ in range(2)]
+            g.add("DUMP")
+        g.add("AGE 2")
+        g.add("GC past 0")
+        g.add("DUMP")
+        g.add("DELTOPIC %d %d" % (owner, t))
+        for u in (a, b, c, o):
+            g.add("DELUSER %d" % u)
+        g.add("DUMP")
+        g.add("GC zero 0")
+        g.add("DUMP")
+
+
 def delmsg_indices(g):
     """DELMSG lines were generated with random publish numbers; nothing to fix up: the driver
     and the runner both ignore numbers that are not publishes of that topic."""
@@ -539,6 +641,8 @@ def monitors(lines, answers):
     pub_topic = {}
     pending_gc = None
     pending = None            # op between two dumps: (kind, ...) for nothing-else-removed
+    made = set()              # uploads that left a record (by request number)
+    aged = set()              # ... and were made before an AGE line (the generator ages by two hours or more)
     import re
     cleaned = {}
     for line, ans in zip(lines, answers):
@@ -587,6 +691,8 @@ def monitors(lines, answers):
                 pass        # a FAILED upload (store failure): the record stays for the GC, as the property says
             elif status != "200" and status != "CRASH" and worked:
                 fails.append(("refused-no-effect", i, "status %s but effect %s" % (status, effect)))
+            if w[0] == "UP" and effect in ("stored", "residue", "residue-nobytes"):
+                made.add(d.get("fid"))
             if w[0] == "UP" and d["body"].startswith("form:"):
                 tot, lim = int(d["body"].split(":")[1]), int(d["lim"])
                 if lim > 0 and tot > lim and (worked or status == "200"):
@@ -606,6 +712,12 @@ def monitors(lines, answers):
                 npub += 1
                 pub_topic[npub] = w[2]
                 pending = ("PUB", i, npub, side.get("code"))
+        elif w[0] == "INFLIGHT":
+            if a[1:2] == ["ok"]:
+                made.add(w[1])
+        elif w[0] == "AGE":
+            # every upload record made so far is now at least two hours old: past the grace period
+            aged |= made
         elif w[0] == "GC":
             pending_gc = (i, w[1], int(w[2]), side.get("gonerec", ""), int(side.get("gonefiles", "0")))
         elif w[0] == "DUMP":
@@ -633,7 +745,7 @@ def monitors(lines, answers):
                         fails.append(("gc-exact", gi, "GC removed linked uploads %s" % sorted(removed - unlinked)))
                     if gonefiles != len(removed & pd):
                         fails.append(("gc-exact", gi, "%d records with bytes removed but %d files deleted" % (len(removed & pd), gonefiles)))
-                    want = set() if kind == "past" else unlinked
+                    want = (unlinked & aged) if kind == "past" else unlinked
                     n = len(want) if lim <= 0 else min(lim, len(want))
                     if len(removed) != n:
                         fails.append(("gc-exact", gi, "GC(%s, limit %d) removed %d of %d collectable uploads" % (kind, lim, len(removed), len(want))))
@@ -651,6 +763,7 @@ def history_expectations(g, lines, answers):
     fails = []
     exist = set()          # uploads with a record (from DUMP)
     held = {}              # link text -> line index
+    owed = {}              # the same obligations, kept after a missing link row was reported: for the GC law
     npub = 0
     pub_topic = {}
     topic_owner = {}
@@ -664,6 +777,14 @@ def history_expectations(g, lines, answers):
             d = kvs(cmp_)
             files = dict(x.split(":") for x in d["files"].split(",")) if d["files"] != "-" else {}
             links = set(d["links"].split(",")) if d["links"] != "-" else set()
+            if i > 0 and lines[i - 1].startswith("GC "):
+                # the GC law: an attachment of an accepted, still existing message survives the collector
+                for l, at in list(owed.items()):
+                    if l.split(">")[0] not in files:
+                        fails.append(("linked-never-removed", i - 1,
+                                      "upload %s, listed with the accepted message of line %d (%s), was garbage-collected by %s while the message exists"
+                                      % (l.split(">")[0], at, lines[at][:70], lines[i - 1])))
+                        del owed[l]
             for l, at in list(held.items()):
                 if l not in links:
                     fails.append(("linked-while-referenced", i, "link %s established by line %d (%s) is gone" % (l, at, lines[at][:70])))
@@ -674,22 +795,25 @@ def history_expectations(g, lines, answers):
             exist = {k for k, s in files.items()}
             done = {k for k, s in files.items() if s == "1"}
             continue
-        if w[0] not in ("PUB", "TAV", "UAV", "TOPIC", "NEWACC", "DELMSG", "DELTOPIC", "DELUSER"):
+        if w[0] not in ("PUB", "PUBX", "TAV", "UAV", "TOPIC", "NEWACC", "DELMSG", "DELTOPIC", "DELUSER"):
             continue
         named = []
-        tpls = w[-1] if w[0] in ("PUB", "TAV", "UAV", "TOPIC", "NEWACC") else "-"
+        tpls = w[-1] if w[0] in ("PUB", "PUBX", "TAV", "UAV", "TOPIC", "NEWACC") else "-"
         if tpls != "-":
             named = [g.names.get(t) for t in tpls.split(",")]
-        if w[0] == "PUB":
+        if w[0] in ("PUB", "PUBX"):
             if cmp_.split()[1] != "saved=1":
                 continue
             npub += 1
-            pub_topic[npub] = w[2]
+            pub_topic[npub] = w[2] if w[0] == "PUB" else w[3]
             ks = [k for k in named if k is not None]
             if side.get("code") == "202":
                 for k in ks:
                     if k in exist:
                         held["%s>m%d" % (k, npub)] = i
+                        owed["%s>m%d" % (k, npub)] = i
+            elif w[0] == "PUBX" and w[4] != "-":
+                pass        # an adapter call was made to fail: a store failure, not a refusal of the attachments
             elif any(k in exist for k in ks):
                 fails.append(("c16-attachment-link-all-or-nothing", i,
                               "message %d stored (reply %s) but its existing attachments %s are not linked" % (npub, side.get("code"), [k for k in ks if k in exist])))
@@ -706,20 +830,23 @@ def history_expectations(g, lines, answers):
             if cmp_.split()[1] == "200":
                 for ks in w[3].split(","):
                     if pub_topic.get(int(ks)) == w[2]:
-                        for l in [l for l in held if l.endswith(">m" + ks)]:
-                            del held[l]
+                        for hd in (held, owed):
+                            for l in [l for l in hd if l.endswith(">m" + ks)]:
+                                del hd[l]
         elif w[0] == "DELTOPIC":
-            for l in list(held):
-                tg = l.split(">")[1]
-                if tg == "t" + w[2] or (tg[0] == "m" and pub_topic.get(int(tg[1:])) == w[2]):
-                    del held[l]
+            for hd in (held, owed):
+                for l in list(hd):
+                    tg = l.split(">")[1]
+                    if tg == "t" + w[2] or (tg[0] == "m" and pub_topic.get(int(tg[1:])) == w[2]):
+                        del hd[l]
         elif w[0] == "DELUSER":
             # the account, the topics it owns and the messages in them are gone
-            for l in list(held):
-                tg = l.split(">")[1]
-                if tg == "u" + w[1] or (tg[0] == "t" and topic_owner.get(tg[1:]) == w[1]) or \
-                        (tg[0] == "m" and topic_owner.get(pub_topic.get(int(tg[1:]))) == w[1]):
-                    del held[l]
+            for hd in (held, owed):
+                for l in list(hd):
+                    tg = l.split(">")[1]
+                    if tg == "u" + w[1] or (tg[0] == "t" and topic_owner.get(tg[1:]) == w[1]) or \
+                            (tg[0] == "m" and topic_owner.get(pub_topic.get(int(tg[1:]))) == w[1]):
+                        del hd[l]
     return fails
 
 
@@ -1046,6 +1173,7 @@ def run(ctx):
         g = Gen(ctx)
         gate_cases(g)
         history_cases(g, 12 if quick else 400, 40 if quick else 45)
+        sender_mode_cases_c16b(g, 8 if quick else 250, 16 if quick else 22)
         # USER 1 must come before the FA lines (they authenticate as user 1)
         lines = ["USER 1"] + pure + g.lines[1:]
     rc, impl, err = run_impl(ctx, lines)
@@ -1142,7 +1270,7 @@ def run(ctx):
         c = a.split(" |")[0].split()
         o = k + ":" + (" ".join(c[1:3]) if k in ("UP", "SV") else ("0" if c[1:] in (["0"], ["-"]) else "x") if k in ("ID", "FA") else "")
         outs[o] = outs.get(o, 0) + 1
-        if (k == "ID" and c[1] != "0") or (k in ("UP", "SV") and c[2] != "none") or k in ("PUB", "TAV", "UAV", "NEWACC", "GC", "DELMSG", "DELTOPIC", "DELUSER", "INFLIGHT") \
+        if (k == "ID" and c[1] != "0") or (k in ("UP", "SV") and c[2] != "none") or k in ("PUB", "PUBX", "MEMBER", "TAV", "UAV", "NEWACC", "GC", "DELMSG", "DELTOPIC", "DELUSER", "INFLIGHT") \
                 or (k == "FA" and c[1] == "1") or (k == "CL" and c[1] != l.split()[1]):
             nontrivial.add(l)
     ctx.coverage.update({
